@@ -206,7 +206,7 @@ def workload(tier):
         yield "chains-4", chains(4), lambda: RX.paths(4, [None, "one", "child"], [None], CLASSES_MIN + ["XP"])
         yield "shaped-3", shaped, lambda: RX.paths(3, FIELDS_RED, INDICES_RED + [12], CLASSES_RED)
         yield "shaped-4", shaped[2:], lambda: RX.paths(4, FIELDS_MIN, INDICES_MIN, CLASSES_MIN + ["XP"])
-        yield "small-3", small, lambda: RX.paths(3, FIELDS_RED, [None, 1], CLASSES_RED)
+        yield "small-3", [d for n in range(1, 4) for d in U.trees(n)], lambda: RX.paths(3, FIELDS_RED, [None, 1], CLASSES_RED)
     else:
         yield "shaped-3", shaped[2:6], lambda: RX.paths(3, FIELDS_MIN, INDICES_MIN, CLASSES_MIN + ["XP"])
 
